@@ -261,7 +261,8 @@ def obligations(tier):
     quick = tier == "quick"
     for cls in CLASSES:
         for mech in MECH:
-            for n in range(0, nmax + 1):
+            # the subclasses add no code to these paths: the largest pre-states only for the base class and PVLModule
+            for n in range(0, (nmax if cls in ("OrderedMultiDict", "PVLModule") else 2) + 1):
                 nests = (None, "PVLGroup") if quick else (None, "PVLGroup", "PVLObject")
                 for nested in (nests if n else (None,)):
                     for mut in MUTS:
